@@ -310,6 +310,11 @@ class Play:
         ctx.interp.val = dict(ctx.H.val)
 
     def set_fault(self, ctx, fault):
+        if fault and len(fault) > 2 and fault[2] == "guard":
+            ctx.H.guard_fault = ctx.interp.guard_fault = fault[0]
+            fault = None
+        else:
+            ctx.H.guard_fault = ctx.interp.guard_fault = None
         f = tuple(fault[:2]) if fault else None
         ctx.H.fault_kind = fault[2] if fault and len(fault) > 2 else "boom"
         ctx.H.fault = f
